@@ -314,6 +314,9 @@ func (s *State) evalInternal(node any) object.Object { //nolint:funlen,gocognit,
 		if oerr != nil {
 			return *oerr
 		}
+		for i, e := range elements {
+			elements[i] = object.Value(e) // elements are values, not references to the variable they were read from.
+		}
 		return object.NewArray(elements)
 	case *ast.MapLiteral:
 		return s.evalMapLiteral(node)
@@ -789,6 +792,9 @@ func (s *State) extendFunctionEnv(
 		if len(args) >= n {
 			extra = args[n:]
 			args = args[:n]
+			for i, e := range extra {
+				extra[i] = object.Value(e) // like named parameters, `..` holds values not references.
+			}
 		}
 		atLeast = " at least"
 	}
